@@ -549,8 +549,66 @@ func c06(r *rep.Run) {
 				}
 			}
 		}
+		// (g2) a context the library built BEFORE later registrations on the same
+		// config (a caller that prepares its context first and keeps extending the
+		// config): the program may use keys the context has never heard of; the
+		// answer is a value or an error, never a panic. Later keys are >= 0 (the
+		// library never builds a slice-backed context when a key is negative).
+		var n2 int64
+		for _, ka := range []eval.VariableKey{0, 1, 2, 7, 255} {
+			for _, kb := range []eval.VariableKey{0, 1, 2, 3, 8, 255, 256, 257, 300, 32767} {
+				if ka == kb {
+					continue
+				}
+				for undef := 0; undef < 2; undef++ {
+					for how := 0; how < 2; how++ {
+						for _, src := range []string{"(+ a b)", "(+ b a)", "(if (< b 3) 1 2)", "(and (= a 1) (= 1 b))", "(+ a b 1)", "(if (= a 1) b a)", "(or (= a 2) (> b 1) (= b a))", "(= (+ b 1) a)"} {
+							for optOn := 0; optOn < 2; optOn++ {
+								cfg := eval.NewConfig(eval.Optimizations(optOn == 1))
+								cfg.VariableKeyMap["a"] = ka
+								if undef == 1 {
+									cfg.CompileOptions[eval.AllowUndefinedVariable] = true
+								}
+								vals := map[string]interface{}{"a": int64(1), "b": int64(2)}
+								early := eval.NewCtxFromVars(cfg, vals)
+								if how == 0 {
+									cfg.VariableKeyMap["b"] = kb
+								} else {
+									eval.GetOrRegisterKey(cfg, "b")
+								}
+								d := map[string]interface{}{"source": src, "keys": fmt.Sprint(cfg.VariableKeyMap), "allow_undefined": undef == 1, "history": "NewCtxFromVars, then b registered, then Compile"}
+								var e *eval.Expr
+								var err error
+								if p, site := drive.Fence(func() { e, err = eval.Compile(cfg, src) }); p != nil {
+									r.Violate("compile-panic", site, sprintf("Compile(%q) with keys %v panics: %v", src, cfg.VariableKeyMap, p), d)
+									continue
+								}
+								if err != nil {
+									continue
+								}
+								for mode := 0; mode < 2; mode++ {
+									n2++
+									p, site := drive.Fence(func() {
+										if mode == 0 {
+											_, _ = e.Eval(early)
+										} else {
+											_, _ = e.TryEval(early)
+										}
+									})
+									if p != nil {
+										r.Violate("eval-panic", site, sprintf("%s of %s with a context NewCtxFromVars built before b was registered (keys now %v) panics: %v (at %s)", []string{"Eval", "TryEval"}[mode], src, cfg.VariableKeyMap, p, site), d)
+									}
+								}
+							}
+						}
+					}
+				}
+			}
+		}
+		n += n2
 		st.evals += n
 		r.Cov["library_context_runs"] = n
+		r.Cov["library_context_built_before_registration_runs"] = n2
 	}
 
 	// (e) scaled shapes
